@@ -169,6 +169,9 @@ def run(ctx):
         spec = gen.rand_tree_spec(rng, rng.choice([1, 2, 3, 4, 5]), max_mult=3)
         dc = build_chain(spec, rng, with_meta=False)
         one(dc.to_dict(), "class", rng.choice(attr_choices))
+    # fixed finding F16: a decay line without daughters (always piped through dot)
+    dot_budget[0] += 3
+    one({"A": [{"bf": 0.5, "fs": [], "model": "PHSP", "model_params": ""}, {"bf": 0.5, "fs": ["b", {"C": [{"bf": 1.0, "fs": [], "model": "", "model_params": ""}]}], "model": "", "model_params": ""}]}, "regression F16", {})
     # an empty table adds nothing
     one({"A": []}, "empty", {})
     one({"A": [{"bf": 1.0, "fs": ["b", {"C": []}], "model": "", "model_params": ""}]}, "empty-sub", {})
